@@ -381,7 +381,11 @@ fn fd_two(cfg: &Cfg) {
     match order {
         0 => {
             hs.push(spawn(move || h1.wait()));
-            hs.push(spawn(move || h2.wait()));
+            if cfg.opt("swap", 0) == 1 {
+                hs.push(spawn(move || h2.wait_swapped()));
+            } else {
+                hs.push(spawn(move || h2.wait()));
+            }
         }
         1 => hs.push(spawn(move || {
             h1.wait();
